@@ -18,7 +18,7 @@ CLAIMED = {
         design="6/C01", technique="Lean 4 proof over an executable float model + bit-exact differential correspondence"),
     "C04": dict(
         text="Lean theorems for every row count, column and both bit widths: pack/unpack round trip, payload density ceil(R*bits/8), C++ and Python kernels equal on every byte tensor, every route of quanto::unpack equal, "
-             "dispatch acts on unpacked values. C++ masks/shifts regenerated from unpack.cpp each run and re-checked by decide. Correspondence against the real code incl. the really compiled C++ kernel.",
+             "dispatch acts on the unpacked values of every packed operand (one or several; the payload alone does not determine the values). C++ masks/shifts regenerated from unpack.cpp each run and re-checked by decide. Correspondence against the real code incl. the really compiled C++ kernel.",
         design="6/C04", technique="Lean 4 proof (index-level model, per-byte decide lifted by omega) + regenerated tables + differential correspondence"),
     "C02": dict(
         text="Lean theorems per quantization group (all rationals, all three working formats, bits 2/4): scale bound (hi-lo)/(2^bits-1) up to rounding with the range extended to zero, zero-point in [0,2^bits-1] (no int8 wrap), "
@@ -66,7 +66,7 @@ CLAIMED = {
              "write-set tables of the inference/quantization entry points are regenerated from the source text each run and checked empty by decide. Correspondence: torch's real global registries and mode stack after every enter/exit of random traces; bit-level snapshots of state_dict, qtypes and float sources around forwards (also with in-place steps between modules), quantize, freeze and library calls over qtype x axis x group size and subnormal scales; repeated evaluation bit-identical; the disable_extensions switch along nested traces against its model.",
         design="6/C13", technique="Lean 4 proof by induction on well-nested traces + regenerated write-set tables + state-snapshot differential checks"),
     "C08": dict(
-        text="Lean theorems by structural induction over module trees: quantize() replaces exactly the selected eligible leaves (Linear, Conv2d, LayerNorm only with activations) by twins carrying the same identity and leaves everything else untouched, for every tree, filter and qtype; the branch trace of QModuleMixin.forward for the four input/activation cases. "
+        text="Lean theorems by structural induction over module trees: quantize() replaces exactly the selected eligible leaves (Linear, Conv2d, LayerNorm only with activations) by twins carrying the same identity and leaves everything else untouched, for every tree, filter and qtype; the branch trace of QModuleMixin.forward for the four input/activation cases; the loop quantize() actually runs (named_modules with its memo, set_module_by_name on dotted names) is modelled and proved equal to that structural map on every tree with distinct sibling names, every yielded name resolves to its module and no name is yielded twice. "
              "Correspondence on random trees (classes, names, filters) and on forward branch traces; float parameters, hyper-parameters, dtype and names compared bit for bit; each quantized module's output compared with the float module on the dequantized weight and (de)quantized input — bit-exact for Conv2d/LayerNorm (fallback ops), inside the accumulation envelope / one output step for Linear (torch is its own reference).",
         design="6/C08", technique="Lean 4 structural induction on module trees + differential correspondence; torch-vs-torch bit equality for numerics"),
     "C09": dict(
@@ -74,8 +74,8 @@ CLAIMED = {
              "Real models under random histories: outputs bit-identical across freeze / refreeze / to(cpu) / deepcopy, non-weight state untouched, frozen payload and scale counts equal to the formula.",
         design="6/C09", technique="Lean 4 proof over a weight state machine (induction on histories) + torch-vs-torch bit equality on real histories"),
     "C10": dict(
-        text="Lean theorems: Python str / literal_eval round trip for every int, None, list and tuple of ints (the metadata strings), flatten→unflatten identity for QBytes, Packed and QBits serial forms under any prefix, leaf types (only tensors and strings), module-level save→load identity including the choice of the weight class from weight_qtype. "
-             "Real serializers (pickle, weights_only, safetensors) on real models: key sets and meta strings vs the model, every leaf bit for bit, qtypes, outputs bit-identical on same/default/requantize targets, re-saved dict equal.",
+        text="Lean theorems: Python str / literal_eval round trip for every int, None, list and tuple of ints (the metadata strings), flatten→unflatten identity for QBytes, Packed and QBits serial forms under any prefix, leaf types (only tensors and strings), module-level save→load identity including the choice of the weight class from weight_qtype, and the whole-model dict (per-module dicts under dotted prefixes): loading looks only at keys under its prefix, so every module of a model of any size is read back whenever no key under one prefix is a key under another. "
+             "Real serializers (pickle, weights_only, safetensors) on real models: key sets and meta strings vs the model, the ordered key list of every saved model vs the modelled layout, every leaf bit for bit, qtypes, outputs bit-identical on same/default/requantize targets, re-saved dict equal.",
         design="6/C10", technique="Lean 4 proof of print/parse and flatten/unflatten round trips + differential correspondence with real serializers"),
     "C11": dict(
         text="Lean theorems: the explicit backward of the quantized linear is the adjoint of its bilinear forward for every batch size and feature sizes (so it equals the float backward at the dequantized operands), the bias gradient is the sum over the flattened leading positions, quantizer and dequantizer contribute the identity, "
